@@ -24,9 +24,18 @@ Verdicts (first that applies):
                    (`datetime_gap_ordered`); class `unaligned-gap` = `unalignedGap z n` (repaired too)
      backwards     interval bounds go backwards in absolute time; class `unaligned-gap-backwards` =
                    `backwardsInGap z a b` for the naive bounds `a ≤ b` concerned
-     c02-nonempty  an interval is EMPTY although the naive interval is not.  Not a C09 violation (bounds
-                   do not go backwards): C02's "intervals are non-empty" in a zone context;
-                   class `D16-empty-interval-in-gap` = `localSpanInGap z a b`
+     c02-nonempty  a returned interval is EMPTY (`start = stop` as instants): C02's "intervals are
+                   non-empty", demanded in zone contexts too since /repo dfe1ade (the former class
+                   `D16-empty-interval-in-gap` is no longer excused; `localized_intervals_nonempty`)
+   Since /repo dfe1ade the localized stream is the naive stream with the spans the clock skips entirely
+   DROPPED and the neighbours they separated MERGED.  The oracle computes that from the
+   implementation's own NoLocation stream with the spec's reading of "skipped" (`specKeep`: no local
+   time of the span exists = `localSpanInGap`, `OH.Props.C09.localSpanInGap_iff_skipped` /
+   `filter_drops_exactly_skipped`) and `OH.Model.Tz.mergeRanges`; `eq-naive` = the returned stream
+   does not have the kinds, comments and count of that list; the clauses on instants are evaluated
+   against its bounds.  `tz.next`: the expected answer is the end of the first range of that list
+   (the harness prints the NoLocation stream as far as needed after `=I=`); tag `next-long` = the
+   printed stream does not settle it (model equality only).
   `disagree model=…`                 clauses hold but model ≠ implementation
   `ok <tag>`                         suffix `-nzok`: the table is not `zoneOK` but `zoneOrdered` (the
                                      `…_ordered` theorems apply); `-nzok-nord`: not even `zoneOrdered`
@@ -116,18 +125,40 @@ def splitN (toks : List String) : List String × List String :=
     | t :: rest => go (t :: acc) rest
   go [] toks
 
+def splitI (toks : List String) : List String × List String :=
+  let rec go (acc : List String) : List String → List String × List String
+    | [] => (acc.reverse, [])
+    | "=I=" :: rest => (acc.reverse, rest)
+    | t :: rest => go (t :: acc) rest
+  go [] toks
+
 /-- first failing clause in priority order -/
 def firstSome : List (Option String) → Option String
   | [] => none
   | some c :: _ => some c
   | none :: rest => firstSome rest
 
-/-- clauses on a list of returned intervals `out` against the naive list `nl` -/
-def checkIntervals (z : Zone) (nl out : List Interval) : Option String :=
-  if nl.length ≠ out.length ∨ (nl.zip out).any (fun (a, b) => a.kind != b.kind || a.comments != b.comments) then
+/-- the spec's reading of the filter of `iter_range`: a range is kept unless it is empty or the clock
+skips all of it (`localSpanInGap z a b`: `a` does not exist and the forward jump that skips it lands
+at/after `b`; `OH.Props.C09.localSpanInGap_iff_skipped`) -/
+def specKeep (z : Zone) (a : Interval) : Bool :=
+  decide (a.start < a.stop) && !((fromLocal z a.start).isEmpty && localSpanInGap z a.start a.stop)
+
+/-- what the localized stream must look like, from the NoLocation stream `nl`: skipped spans dropped,
+neighbours merged (`mergeRanges` = the `next_if` loop), bounds still naive -/
+def specCoalesce (z : Zone) (nl : List Interval) : List Interval := mergeRanges (nl.filter (specKeep z))
+
+/-- clauses on a list of returned intervals `out` against the naive list `nl`; `cut`: both lists are
+prefixes of longer streams (the last expected range may still grow: only the settled part is compared) -/
+def checkIntervals (z : Zone) (cut : Bool) (nl out : List Interval) : Option String :=
+  let el0 := specCoalesce z nl
+  let k := min (el0.length - 1) out.length
+  let el := if cut then el0.take k else el0
+  let out := if cut then out.take k else out
+  if el.length ≠ out.length ∨ (el.zip out).any (fun (a, b) => a.kind != b.kind || a.comments != b.comments) then
     some "eq-naive"
   else
-    let pairs := nl.zip out
+    let pairs := el.zip out
     let mapped := pairs.map (fun (a, b) =>
       (checkMapped z a.start b.start, checkMapped z a.stop b.stop))
     let hard := firstSome (mapped.flatMap (fun (x, y) =>
@@ -145,11 +176,7 @@ def checkIntervals (z : Zone) (nl out : List Interval) : Option String :=
       | [] => none
     let backwards := back pairs
     let firstValid := firstSome (mapped.flatMap (fun (x, y) => [x, y]))
-    let empty := firstSome (pairs.map (fun (a, b) =>
-      if b.start = b.stop ∧ a.start < a.stop then
-        (if localSpanInGap z a.start a.stop then some "c02-nonempty class=D16-empty-interval-in-gap"
-         else some "c02-nonempty")
-      else none))
+    let empty := firstSome (out.map (fun b => if b.start = b.stop then some "c02-nonempty" else none))
     firstSome [hard, backwards, firstValid, empty]
 
 def boundsTag (z : Zone) (nl : List Interval) : String :=
@@ -237,20 +264,36 @@ def handle (op : String) (args impl : List String) : Option String :=
                 | .ok (some c) => .ok ["some", showInstant c]
                 | .error p => .error p)
               match nres with
-              | n0 :: nv =>
+              | n0 :: nrest =>
+                let (nv, itoks) := splitI nrest
                 let mnv := runM (match nextChange ctx e (naive z t) with
                   | .ok none => .ok ["none"]
                   | .ok (some c) => .ok ["some", showInstant c]
                   | .error p => .error p)
+                -- the expected answer, from the implementation's own NoLocation stream: the end of the
+                -- first range after dropping skipped spans and merging; `none` = not settled by the
+                -- printed prefix
+                let expected : Option (Option Int) :=
+                  match pList pInterval itoks with
+                  | some (nl, []) =>
+                    match specCoalesce z nl with
+                    | [] => if nl.isEmpty then some none else none
+                    | c :: more =>
+                      if c.stop ≥ instEnd then some none
+                      else if more.isEmpty then none
+                      else some (some c.stop)
+                  | _ => none
                 let (clause, tag) : Option String × String :=
                   if parseInstant n0 ≠ some (naive z t) then (some "naive-time", "next") else
-                  match nv, r with
-                  | ["none"], ["none"] => (none, "next-none")
-                  | ["some", c], ["some", u] =>
-                    match parseInstant c, parseInstant u with
-                    | some c, some u => (checkMapped z c u, "next-" ++ localKind z c)
-                    | _, _ => (some "malformed", "next")
-                  | _, _ => if isPanicTok nv then (none, "next-panic") else (some "eq-naive", "next")
+                  if isPanicTok nv ∨ isPanicTok itoks then (none, "next-panic") else
+                  match expected, r with
+                  | some none, ["none"] => (none, "next-none")
+                  | some (some c), ["some", u] =>
+                    match parseInstant u with
+                    | some u => (checkMapped z c u, "next-" ++ localKind z c)
+                    | none => (some "malformed", "next")
+                  | none, _ => (none, "next-long")
+                  | _, _ => (some "eq-naive", "next")
                 some (finish z tag clause m r (sameOut mnv nv))
               | _ => some (finish z "next" none m r)
           | "tz.iter", [_, _, f, t, _, _] =>
@@ -277,8 +320,7 @@ def handle (op : String) (args impl : List String) : Option String :=
                 else
                 match pList pInterval ntoks, pList pInterval toks with
                 | some (nl, []), some (out, []) =>
-                  let nl := trim nl
-                  some (finish z ("iter-" ++ boundsTag z nl ++ (if cut then "-cut" else "")) (checkIntervals z nl out) m toks evOk)
+                  some (finish z ("iter-" ++ boundsTag z nl ++ (if cut then "-cut" else "")) (checkIntervals z cut nl out) m toks evOk)
                 | _, _ => if isPanicTok toks ∨ isPanicTok ntoks then some (finish z "iter-panic" none m toks evOk) else none
               | _ => some (finish z "iter" none m toks)
             | _, _ => none
